@@ -317,7 +317,7 @@ func judge6(r *mon.Rec, t *testing.T, sc scenario6) {
 			bad("rapid-reply", "RapidSolicit returned datagram %d (kind %v) without REQUEST; not a REPLY of the solicit's transaction", nonce6(o.msg), kind6(got))
 			return
 		}
-		if sel != nil && sel.nonce != got.nonce && len(sols) == 1 {
+		if sel != nil && sel.nonce != got.nonce && inFirstTry(sel, sols) {
 			bad("not-first-response", "first acceptable response was %d (%s), returned %d", sel.nonce, sel.kind, got.nonce)
 			return
 		}
@@ -327,7 +327,7 @@ func judge6(r *mon.Rec, t *testing.T, sc scenario6) {
 			bad("result-without-request", "a message was returned without REQUEST")
 			return
 		}
-		if sel != nil && sel.kind != "advertise-nosid" && len(sols) == 1 {
+		if sel != nil && sel.kind != "advertise-nosid" && inFirstTry(sel, sols) {
 			bad("advertise-ignored", "datagram %d (%s) answers the SOLICIT but no REQUEST followed: %v", sel.nonce, sel.kind, o.err)
 			return
 		}
@@ -358,13 +358,13 @@ func judge6(r *mon.Rec, t *testing.T, sc scenario6) {
 				bad("reply-pairing", "Request returned datagram %d (kind %v), which is not a response to the REQUEST's transaction", nonce6(o.msg), kind6(got))
 				return
 			}
-			if comp != nil && comp.nonce != got.nonce && len(reqs) == 1 {
+			if comp != nil && comp.nonce != got.nonce && inFirstTry(comp, reqs) {
 				bad("not-first-response", "first response of the REQUEST's transaction was %d, returned %d", comp.nonce, got.nonce)
 				return
 			}
 			outc = "request-reply"
 		} else {
-			if comp != nil && len(reqs) == 1 {
+			if comp != nil && inFirstTry(comp, reqs) {
 				bad("reply-ignored", "datagram %d (%s) answers the REQUEST's transaction but the call failed: %v", comp.nonce, comp.kind, o.err)
 				return
 			}
@@ -381,6 +381,10 @@ func judge6(r *mon.Rec, t *testing.T, sc scenario6) {
 	r.Shape("v6:"+s, len(sc.OnSolicit) > 0)
 	r.Count("v6.outcome."+outc, 1)
 }
+
+// inFirstTry: the datagram was read while the first try was still waiting -- the message was transmitted once, or the
+// datagram's read returned before the retransmission was written (server delays never coincide with the try's timeout).
+func inFirstTry(in *inj6, txs []tx6) bool { return len(txs) == 1 || in.retSeq < txs[1].seq }
 
 func kind6(in *inj6) string {
 	if in == nil {
